@@ -282,7 +282,7 @@ def global_state(full=False):
 
     st = {
         "warnings.filters": (id(warnings.filters), _filters_canon()),
-        "warnings.showwarning": id(warnings.showwarning),
+        "warnings.showwarning": (id(warnings.showwarning), id(warnings.formatwarning)),
         "awkward.behavior": (id(awkward.behavior), tuple(awkward.behavior.keys()), tuple(map(id, awkward.behavior.values()))),
         "_awkward_registered": vector._awkward_registered,
     }
@@ -296,6 +296,14 @@ def global_state(full=False):
         st["random"] = hashlib.sha256(repr(random.getstate()).encode()).hexdigest()[:12]
         st["np.random"] = hashlib.sha256(numpy.random.get_state()[1].tobytes()).hexdigest()[:12]
         st["recursionlimit"] = sys.getrecursionlimit()
+        import decimal
+        import locale
+
+        st["decimal"] = repr(decimal.getcontext())
+        try:
+            st["locale"] = locale.setlocale(locale.LC_ALL, None)
+        except Exception:
+            st["locale"] = "?"
         st["cwd"] = os.getcwd()
         st["environ"] = hashlib.sha256(repr(sorted(os.environ.items())).encode()).hexdigest()[:12]
     return st
